@@ -55,6 +55,8 @@ class _Ctx:
         self.update_calls = 0
         self.update_cap = None
         self.cand_calls = 0
+        self.start_calls = 0
+        self.start_cap = None
         self.overlap_seen = 0
         self.attempt_grows = 0
         self.attempt_fail_after = None
@@ -174,6 +176,9 @@ def _install(ctx):
 
     def _is_overlap(self, point, node, nrexcl=1):
         if ctx.in_step is None:
+            ctx.start_calls += 1
+            if ctx.start_cap is not None and ctx.start_calls > ctx.start_cap:
+                raise SimAbort("start attempt cap exceeded")
             t = ctx.tape.next("start")
             if t:
                 ctx.fault("start_forced_reject")
@@ -428,6 +433,7 @@ def _capture_start(ctx, eng, molecules, topology, box):
     lanes = ctx.tape.lanes
     nstep = len(lanes.get("step", ())) + len(lanes.get("start", ())) + 8 * len(lanes.get("attempt", ()))
     ctx.update_cap = 60 * nres + 4 * nstep + 1000
+    ctx.start_cap = 40 * len(molecules) + 3 * len(lanes.get("start", ())) + 1500
     ctx.cand_cap = 400 * nres + 3 * len(lanes.get("overlap", ())) + 120 * nstep + 5000
     # full-build molecules with all positions are skipped -> accepted from the start
     for m, mol in enumerate(molecules):
